@@ -742,4 +742,33 @@ def nodeWF : Node → Bool
     startsLink m && s.kind == .seqend && subs.all (fun x => some x.kind == expectedSub m.kind)
   | .unterminated _ _ => false
 
+/-! ### the plan without the payload tags of the traced instance
+
+The traced plan of a class lists the payload tags of ONE instance as raw events that the entity's own loader removes
+(`drop`) before it calls `fast_load_dxfattribs`.  `stripPlan` removes these events: what remains is what the generic
+attribute machinery sees, for a payload of any size. -/
+
+/-- labels (1-based event positions) removed by the entity's own pre-processing of subclass `k` -/
+def droppedOf (p : Plan) (k : Nat) : List Nat :=
+  p.loads.flatMap (fun st => match st with
+    | .fast _ sub _ drop => if sub == k then drop else []
+    | .simple _ => [])
+
+def stripEvs (drop : List Nat) : Nat → List Ev → List Ev
+  | _, [] => []
+  | i, e :: rest => if drop.contains i then stripEvs drop (i + 1) rest else e :: stripEvs drop (i + 1) rest
+
+def stripPlan (p : Plan) : Plan :=
+  { ver := p.ver,
+    segs := p.segs.zipIdx.map (fun sk => { sk.1 with evs := stripEvs (droppedOf p sk.2) 1 sk.1.evs }),
+    loads := p.loads.map (fun st => match st with
+      | .fast m sub r _ => .fast m sub r []
+      | .simple m => .simple m) }
+
+/-- group codes of the tags that subclass `k` of a plan can hold (attribute tags and raw tags, without the marker) -/
+def segCodes (S : Schema) (p : Plan) (k : Nat) : Option (List Int) :=
+  match symSegs S p.segs with
+  | some sss => sss[k]?.map (fun ss => ss.map (·.code))
+  | none => none
+
 end EzdxfVerif.Schema
